@@ -16,12 +16,45 @@ type shape3 struct {
 	kind     string
 	name     string
 	col      model3d.Collider
-	scale    float64                     // characteristic length, for tolerances
-	resid    func(p v3) float64          // nil: not checked
+	scale    float64                      // characteristic length, for tolerances
+	resid    func(p v3) float64           // nil: not checked
 	normalOK func(p, n v3) (bool, string) // nil: not checked
-	contains func(p v3) bool             // nil: not a closed shape / unknown
-	validate bool                        // hit parameters come from the polynomial root finder: residuals only validate
-	approx   bool                        // documented approximate collider (SolidCollider): contract only
+	contains func(p v3) bool              // nil: not a closed shape / unknown
+	validate bool                         // hit parameters come from the polynomial root finder: residuals only validate
+	approx   bool                         // documented approximate collider (SolidCollider): contract only
+	proj2    model2d.Collider             // profile colliders: the 2-D outline collider
+}
+
+// degenerateProjection: the projection of the ray to the xy-plane is not in general position with respect to the
+// 2-D outline - parallel rays a hair to either side see a different number of outline crossings, i.e. the projected
+// ray grazes a vertex of the outline or is tangent to it.  (profileCollider decides its face hits by the parity of
+// the outline crossings along the projected ray.)
+func degenerateProjection(col2 model2d.Collider, r *model3d.Ray, scale float64) bool {
+	d := r.Direction.XY()
+	if d.Norm() == 0 {
+		return false
+	}
+	n := model2d.XY(-d.Y, d.X).Normalize()
+	count := func(off float64) int {
+		return col2.RayCollisions(&model2d.Ray{Origin: r.Origin.XY().Add(n.Scale(off)), Direction: d}, nil)
+	}
+	c0 := count(0)
+	for _, off := range []float64{1e-7 * scale, -1e-7 * scale, 1e-5 * scale, -1e-5 * scale} {
+		if count(off) != c0 {
+			return true
+		}
+	}
+	return false
+}
+
+// surfaceSite: the site of an off-surface hit; a profile collider hit by a ray whose projection grazes the outline is
+// reported under its own site (known finding).
+func surfaceSite(sh *shape3, r *model3d.Ray, tag string) string {
+	site := "c07:" + tag + "hit-not-on-surface/" + sh.kind
+	if sh.proj2 != nil && degenerateProjection(sh.proj2, r, sh.scale) {
+		site += "/degenerate-2d-projection"
+	}
+	return site
 }
 
 func near(a, b, tol float64) bool { return math.Abs(a-b) <= tol }
@@ -836,7 +869,7 @@ func mkProfile(c *hlib.Ctx) *shape3 {
 	col := model3d.ProfileCollider(in.col, z0, z1)
 	sc := in.scale + (z1 - z0)
 	tol := 1e-6 * (1 + sc)
-	return &shape3{kind: "profile", name: fmt.Sprintf("Profile{%s,%v,%v}", in.name, z0, z1), col: col, scale: sc,
+	return &shape3{kind: "profile", name: fmt.Sprintf("Profile{%s,%v,%v}", in.name, z0, z1), col: col, scale: sc, proj2: in.col,
 		resid: func(p v3) float64 {
 			xy := p.XY()
 			d2 := math.Abs(in.resid(xy))
